@@ -22,6 +22,18 @@ _KNOWN = None
 _VARIANTS = {}
 
 
+_HASHES = None
+
+
+def known_hashes():
+    global _HASHES
+    if _HASHES is None:
+        p = os.path.join(os.path.dirname(os.path.abspath(__file__)), "tables", "known_fns.json")
+        with open(p) as fh:
+            _HASHES = {k: set(v) for k, v in (json.load(fh).get("hashes") or {}).items()}
+    return _HASHES
+
+
 def known_fns():
     global _KNOWN
     if _KNOWN is None:
@@ -48,6 +60,25 @@ def _remap(x, L0, P0):
     if isinstance(x, list):
         return [_remap(v, L0, P0) for v in x]
     return x
+
+
+def _subst_local(x, a, b):
+    """replace local `a` by local `b` in a (freshly copied) fragment, in place"""
+    if isinstance(x, dict):
+        if "l" in x and "pr" in x and x["l"] == a:
+            x["l"] = b
+        for v in x.values():
+            _subst_local(v, a, b)
+    elif isinstance(x, list):
+        for v in x:
+            _subst_local(v, a, b)
+
+
+def _result_copy(dest, ret, ln):
+    """`dest = move ret` — nothing when the callee's result was written into the destination local directly"""
+    if not dest["pr"] and dest["l"] == ret:
+        return []
+    return [{"k": "assign", "p": dest, "rv": {"k": "use", "o": {"mv": {"l": ret, "pr": []}}}, "ln": ln}]
 
 
 def _remap_term(t, L0, P0, B0, cont):
@@ -98,35 +129,88 @@ def _value_in_block(blk, ret_local):
     return None
 
 
-def _return_sources(d, rb, ret_local, lo, hi):
-    """[(block, value, [blocks whose statements lie between that block and the return])]: the blocks (of the inlined body,
-    indices lo..hi) that decide the returned value with a known constant / variant and reach the return block `rb` through
-    `goto`-only join blocks that do not touch it"""
-    preds = _preds(d)
-    out = []
+def _region(d, start, rb, ret_local, lo, hi):
+    """the blocks between `start` and the return block `rb` of an inlined body, if that tail is pure: only gotos, switches
+    and drops (drop elaboration of the values the callee consumed sits between `Ok(..)` / `Err(..)` and the return), no
+    call, and no further assignment of the return place.  None if the tail is not of that kind."""
+    seen, st = [], [start]
+    while st:
+        x = st.pop()
+        if x == rb or x in seen:
+            continue
+        if not (lo <= x < hi):
+            return None
+        blk = d["blocks"][x]
+        if _value_in_block(blk, ret_local) is not None or any(s_["k"] != "assign" for s_ in blk["stmts"]):
+            return None
+        t = blk["term"]
+        if t["k"] == "goto":
+            nxt = [t["t"]]
+        elif t["k"] == "switch":
+            nxt = list(t["tgts"])
+        elif t["k"] == "drop":
+            nxt = [t["t"]] if t.get("t") is not None else []
+        elif t["k"] == "unreachable":
+            nxt = []
+        else:
+            return None
+        seen.append(x)
+        if len(seen) > 16:
+            return None
+        st.extend(nxt)
+    return seen
 
-    def walk(b, tail, hops):
-        v = _value_in_block(d["blocks"][b], ret_local)
+
+def _return_sources(d, rb, ret_local, lo, hi):
+    """[(block, value, region)]: the blocks of the inlined body (indices lo..hi) that decide the returned value with a known
+    constant / variant and reach the return block `rb` through a pure tail (`_region`)"""
+    out = []
+    ty = str(d["locals"][ret_local].get("ty", ""))
+    for b in range(lo, hi):
+        blk = d["blocks"][b]
+        t = blk["term"]
+        v = _value_in_block(blk, ret_local)
         if v == "unknown":
-            return
-        if v is not None:
-            out.append((b, v, tail))
-            return
-        if hops >= 4:
-            return
-        for p in preds.get(b, []):
-            if not (lo <= p < hi) or any(s_["k"] != "assign" for s_ in d["blocks"][b]["stmts"]):
-                continue
-            pt = d["blocks"][p]["term"]
-            if pt["k"] == "goto":
-                walk(p, [b] + tail, hops + 1)
-            elif pt["k"] == "call" and pt.get("t") == b and not pt["dest"]["pr"] and pt["dest"]["l"] == ret_local \
-                    and str((pt.get("f") or {}).get("path", "")).endswith("FromResidual::from_residual"):
+            continue
+        if v is None:
+            if t["k"] == "call" and t.get("t") is not None and not t["dest"]["pr"] and t["dest"]["l"] == ret_local \
+                    and str((t.get("f") or {}).get("path", "")).endswith("FromResidual::from_residual"):
                 # `return Err(From::from(e))` of an inner `?`: the residual side
-                ty = str(d["locals"][ret_local].get("ty", ""))
-                out.append((p, ("variant", "None" if "option::Option<" in ty else "Err", None), [b] + tail))
-    walk(rb, [], 0)
+                v = ("variant", "None" if "option::Option<" in ty else "Err", None)
+            else:
+                continue
+        elif t["k"] not in ("goto", "drop") or t.get("t") is None:
+            continue
+        if b == rb:
+            out.append((b, v, []))
+            continue
+        region = _region(d, t["t"], rb, ret_local, lo, hi)
+        if region is not None:
+            out.append((b, v, region))
     return out
+
+
+def _redirect(d, src, region, rb, tail):
+    """give `src` its own copy of the tail `region` + `rb`, ending in a jump to block `tail`"""
+    if src == rb:
+        d["blocks"][src]["term"] = dict(d["blocks"][src]["term"], t=tail)
+        return
+    allb = list(region) + [rb]
+    base = len(d["blocks"])
+    m = {x: base + i for i, x in enumerate(allb)}
+    for x in allb:
+        blk = json.loads(json.dumps(d["blocks"][x]))
+        if x == rb:
+            blk["term"] = {"k": "goto", "t": tail, "ln": blk["term"].get("ln"), "threaded": True}
+        else:
+            t = blk["term"]
+            if isinstance(t.get("t"), int) and t["t"] in m:
+                t["t"] = m[t["t"]]
+            if "tgts" in t:
+                t["tgts"] = [m.get(y, y) for y in t["tgts"]]
+        d["blocks"].append(blk)
+    st = d["blocks"][src]["term"]
+    d["blocks"][src]["term"] = dict(st, t=m[st["t"]])
 
 
 def _thread_through_try(d, t, tb, tt, L0, B0, nb):
@@ -156,25 +240,19 @@ def _thread_through_try(d, t, tb, tt, L0, B0, nb):
     for rb in range(B0, B0 + nb):
         if not d["blocks"][rb]["term"].get("inl_return"):
             continue
-        for src, kv, tail in _return_sources(d, rb, L0, B0, B0 + nb):
+        for src, kv, region in _return_sources(d, rb, L0, B0, B0 + nb):
             if kv[0] != "variant" or kv[1] not in arm:
                 continue
             v = arm[kv[1]]
             tgt = t2["tgts"][t2["vals"].index(v)] if v in t2["vals"] else t2["tgts"][-1]
-            st = d["blocks"][src]["term"]
-            if st["k"] not in ("goto", "call"):
-                continue
-            between = []
-            for x in tail:
-                between.extend(dict(y) for y in d["blocks"][x]["stmts"])
             n0 = len(d["blocks"])
-            # block 1: the assignments up to and including the `branch` call; block 2: the switch's own statements, then the arm
+            # block 1: the assignment of the result and the `branch` call; block 2: the switch's own statements, then the arm
             d["blocks"].append({"cleanup": False, "inl": d["blocks"][src].get("inl"),
-                                "stmts": between + [{"k": "assign", "p": dest, "rv": {"k": "use", "o": {"mv": {"l": L0, "pr": []}}}, "ln": t.get("ln")}] + [dict(x) for x in tb["stmts"]],
+                                "stmts": _result_copy(dest, L0, t.get("ln")) + [dict(x) for x in tb["stmts"]],
                                 "term": dict(tt, t=n0 + 1, threaded=True)})
             d["blocks"].append({"cleanup": False, "inl": d["blocks"][src].get("inl"), "stmts": [dict(x) for x in tb2["stmts"]],
                                 "term": {"k": "goto", "t": tgt, "ln": t2.get("ln"), "threaded": True}})
-            d["blocks"][src]["term"] = dict(st, t=n0)
+            _redirect(d, src, region, rb, n0)
 
 
 def _thread_returns(d, t, L0, B0, nb, cont):
@@ -210,7 +288,7 @@ def _thread_returns(d, t, L0, B0, nb, cont):
     for rb in range(B0, B0 + nb):
         if not d["blocks"][rb]["term"].get("inl_return"):
             continue
-        for src, kv, tail in _return_sources(d, rb, L0, B0, B0 + nb):
+        for src, kv, region in _return_sources(d, rb, L0, B0, B0 + nb):
             if mode == "value" and kv[0] == "const":
                 v = kv[1]
             elif mode == "discr" and kv[0] == "variant":
@@ -227,17 +305,11 @@ def _thread_returns(d, t, L0, B0, nb, cont):
             else:
                 continue
             tgt = tt["tgts"][tt["vals"].index(v)] if v in tt["vals"] else tt["tgts"][-1]
-            between = []
-            for x in tail:  # statements of the join blocks between the deciding block and the return (tail excludes src)
-                between.extend(dict(y) for y in d["blocks"][x]["stmts"])
+            n0 = len(d["blocks"])
             d["blocks"].append({"cleanup": False, "inl": d["blocks"][src].get("inl"),
-                                "stmts": between + [{"k": "assign", "p": dest, "rv": {"k": "use", "o": {"mv": {"l": L0, "pr": []}}}, "ln": t.get("ln")}] + [dict(x) for x in tb["stmts"]],
+                                "stmts": _result_copy(dest, L0, t.get("ln")) + [dict(x) for x in tb["stmts"]],
                                 "term": {"k": "goto", "t": tgt, "ln": tt.get("ln"), "threaded": True}})
-            st = d["blocks"][src]["term"]
-            if st["k"] in ("goto", "call"):
-                d["blocks"][src]["term"] = dict(st, t=len(d["blocks"]) - 1)
-            else:
-                d["blocks"].pop()
+            _redirect(d, src, region, rb, n0)
 
 
 def _inline_call(d, b, callee):
@@ -252,14 +324,20 @@ def _inline_call(d, b, callee):
         d["promoted"].extend(callee["promoted"])
     nb = len(callee["blocks"])
     cont = (B0 + nb) if t.get("t") is not None else None
+    # the callee's return place: the destination local itself when the call assigns a whole local (so that `Ok(..)` built in
+    # the helper is, as before the extraction, an assignment to the caller's own result), else a fresh local
+    ret = t["dest"]["l"] if not t["dest"]["pr"] else L0
     for cb in callee["blocks"]:
-        d["blocks"].append({"cleanup": cb.get("cleanup", False), "stmts": _remap(cb["stmts"], L0, P0),
-                            "term": _remap_term(cb["term"], L0, P0, B0, cont), "inl": callee["path"]})
+        nbk = {"cleanup": cb.get("cleanup", False), "stmts": _remap(cb["stmts"], L0, P0),
+               "term": _remap_term(cb["term"], L0, P0, B0, cont), "inl": callee["path"]}
+        if ret != L0:
+            _subst_local(nbk, L0, ret)
+        d["blocks"].append(nbk)
     if cont is not None:
         d["blocks"].append({"cleanup": False, "inl": callee["path"],
-                            "stmts": [{"k": "assign", "p": t["dest"], "rv": {"k": "use", "o": {"mv": {"l": L0, "pr": []}}}, "ln": t.get("ln")}],
+                            "stmts": _result_copy(t["dest"], ret, t.get("ln")),
                             "term": {"k": "goto", "t": t["t"], "ln": t.get("ln")}})
-        _thread_returns(d, t, L0, B0, nb, cont)
+        _thread_returns(d, t, ret, B0, nb, cont)
     blk = d["blocks"][b]
     for i, a in enumerate(t["args"]):
         blk["stmts"].append({"k": "assign", "p": {"l": L0 + i + 1, "pr": []}, "rv": {"k": "use", "o": a}, "ln": t.get("ln")})
@@ -288,6 +366,65 @@ def _same_home(caller, callee):
     if b:
         return a == b
     return True
+
+
+def thread_bool_temps(d):
+    """`let c = a && b;` / `matches!(..)` lower to arms that set a bool local to a constant and join on a switch over it
+    (possibly through a copy into a temporary: `_t = copy c; switchInt(move _t)`).  An arm that assigns a constant goes
+    straight to the branch that constant selects, so that what the condition guards is dominated by the tests that make
+    it true.  Applied to functions whose body differs from the confirmed tree only."""
+    n = 0
+    preds = _preds(d)
+    for j, blk in enumerate(list(d["blocks"])):
+        t = blk["term"]
+        if t["k"] != "switch" or any(s_["k"] != "assign" or s_["rv"]["k"] != "use" or s_["p"]["pr"] for s_ in blk["stmts"]):
+            continue
+        pl = t["o"].get("mv") or t["o"].get("cp")
+        if pl is None or pl["pr"]:
+            continue
+        # resolve the switched local through the block's own copies
+        src = pl["l"]
+        for s_ in reversed(blk["stmts"]):
+            o = s_["rv"]["o"]
+            q = o.get("mv") or o.get("cp")
+            if s_["p"]["l"] == src and q is not None and not q["pr"]:
+                src = q["l"]
+        for p in preds.get(j, []):
+            pb = d["blocks"][p]
+            if pb["term"]["k"] != "goto" or pb["term"].get("t") != j:
+                continue
+            v = None
+            for s_ in reversed(pb["stmts"]):
+                if s_["k"] == "assign" and s_["p"]["l"] == src:
+                    rv = s_["rv"]
+                    if not s_["p"]["pr"] and rv["k"] == "use" and "c" in rv["o"] and isinstance(rv["o"]["c"].get("v"), (bool, int)):
+                        v = int(rv["o"]["c"]["v"])
+                    break
+            if v is None:
+                continue
+            tgt = t["tgts"][t["vals"].index(v)] if v in t["vals"] else t["tgts"][-1]
+            if blk["stmts"]:
+                d["blocks"].append({"cleanup": blk.get("cleanup", False), "stmts": [dict(x) for x in blk["stmts"]], "term": {"k": "goto", "t": tgt, "ln": t.get("ln"), "threaded": True}})
+                tgt = len(d["blocks"]) - 1
+            pb["term"] = dict(pb["term"], t=tgt, threaded=True)
+            n += 1
+    return n
+
+
+def body_hash(d):
+    """a hash of a function's MIR that ignores line numbers (code above it may move)"""
+    import hashlib
+
+    def strip(x):
+        if isinstance(x, dict):
+            return {k: strip(v) for k, v in x.items() if k not in ("ln", "fln", "mac")}
+        if isinstance(x, list):
+            return [strip(v) for v in x]
+        return x
+    import re
+    text = json.dumps(strip(d.get("blocks") or []), sort_keys=True)
+    text = re.sub(r"@[\w/.\-]+\.rs:\d+:\d+: \d+:\d+", "@", text)  # closure types carry their source position
+    return hashlib.sha1(text.encode()).hexdigest()[:16]
 
 
 def apply(data):
@@ -321,12 +458,23 @@ def apply(data):
             c = by_norm.get(norm(p), [])
             g = c[0] if len(c) == 1 else None
         return g
+    # functions whose body differs from the confirmed tree get their bool temporaries threaded (identity on that tree)
+    hashes = known_hashes()
+    edited = 0
+    for d in data["fns"]:
+        if d.get("blocks") and d["kind"] != "closure":
+            hs = hashes.get(norm(d["path"]))
+            if hs is not None and body_hash(d) not in hs:
+                thread_bool_temps(d)
+                edited += 1
+    data["_edited_fns"] = edited
     unknown = {p for p, d in fns.items() if d["kind"] != "closure" and norm(p) not in known and d.get("blocks")}
     if not unknown:
         return 0, 0
     originals = {p: json.loads(json.dumps(fns[p])) for p in unknown}  # pristine copies to inline from
     n, callees = 0, set()
     inlined_total = set()
+    inlined_into = {}
     for d in data["fns"]:
         if not is_known(d) or not d.get("blocks"):
             continue
@@ -350,6 +498,7 @@ def apply(data):
             n += 1
             callees.add(g["path"])
             inlined_total.add(g["path"])
+            inlined_into.setdefault(g["path"], home["path"])
             for x in range(new.start, len(d["blocks"])):
                 depth[x] = depth[b] + 1
                 stack[x] = stack[b] + (g["path"],)
@@ -374,9 +523,13 @@ def apply(data):
                         for a in t["args"]:
                             _fn_consts(a, called, by_norm)
             drop = {p for p in callees if p not in called}
-            closures = {d["path"] for d in data["fns"] if d["kind"] == "closure" and d.get("root") in drop}
             if not drop:
                 break
-            data["fns"] = [d for d in data["fns"] if d["path"] not in drop and d["path"] not in closures]
+            # (the helper's closures stay: the inlined copies still name them; they now belong to the function the helper
+            # was inlined into)
+            for d in data["fns"]:
+                if d["kind"] == "closure" and d.get("root") in drop and d.get("root") in inlined_into:
+                    d["root"] = inlined_into[d["root"]]
+            data["fns"] = [d for d in data["fns"] if d["path"] not in drop]
             callees -= drop
     return n, len(inlined_total)
